@@ -11,6 +11,9 @@
                                                    the asset events then say "nothing served")
      asset  {inst, asset, listed, cls, diff}       answers of that server for the request pool of one asset
      tl     {inst, asset, rep, N, n0, tfdt, dur}   read-mode instance with a metadata root: segments n0, n0+1, ... as served
+     mtl    {inst, asset, rep, N, t, d, st, tfdt}  the scanning server (inst -1) and the same instances: first N+2 entries (t, d)
+                                                   declared by the SegmentTimeline MPD; st / tfdt: status and first decode time
+                                                   of the segment served for $Time$ = t (-1: none)
      files  {inst, write, files}                   metadata files after the start ([[path, digest], ...], sorted)
    The file kinds are tracked with the oracle's own operators; a damage / remove event that is impossible on the tracked
    files blocks the trace (=> machinery error, never a verdict). *)
@@ -86,6 +89,16 @@ Tl == /\ e.ev = "tl"
                  corrupt |-> \E r \in DOMAIN FsOf(e.asset) : Corrupt(FsOf(e.asset)[r])])
       /\ UNCHANGED <<ref, file, root, write, wsnap, wvalid>>
 
+\* C15.contig on the loaded table as it is served: the SegmentTimeline the server declares is contiguous and every declared
+\* entry is served (status 200) with the declared start as its decode time
+Mtl == /\ e.ev = "mtl"
+       /\ e.asset \in DOMAIN ref
+       /\ Clause("C15.contig", DeclaredOK(e.t, e.d, e.st, e.tfdt),
+                 [asset |-> e.asset, rep |-> e.rep, kind |-> "declared-timeline", first_bad |-> FirstBadDeclared(e.t, e.d, e.st, e.tfdt),
+                  t |-> e.t, d |-> e.d, st |-> e.st, tfdt |-> e.tfdt, root |-> root, write |-> write,
+                  corrupt |-> \E r \in DOMAIN FsOf(e.asset) : Corrupt(FsOf(e.asset)[r])])
+       /\ UNCHANGED <<ref, file, root, write, wsnap, wvalid>>
+
 \* C15.idem: a write-mode start that follows a write-mode start with no file action in between leaves the same bytes
 Files == /\ e.ev = "files"
          /\ IF e.write
@@ -95,7 +108,7 @@ Files == /\ e.ev = "files"
             ELSE UNCHANGED <<wsnap, wvalid>>
          /\ UNCHANGED <<ref, file, root, write>>
 
-Step == l <= Len(Trace) /\ (Ref \/ Hdr \/ Damage \/ Remove \/ Start \/ Asset \/ Tl \/ Files) /\ l' = l + 1
+Step == l <= Len(Trace) /\ (Ref \/ Hdr \/ Damage \/ Remove \/ Start \/ Asset \/ Tl \/ Mtl \/ Files) /\ l' = l + 1
 Done == l = Len(Trace) + 1 /\ Consumed(Len(Trace)) /\ UNCHANGED vars
 Spec == Init /\ [][Step \/ Done]_vars
 Accepted == NoBad
